@@ -223,7 +223,7 @@ pub fn generate(repo: &PathBuf, s: &mut String) -> Result<(), String> {
 
     // --- ant-bootstrap: routines that consume the counters / addresses a cache file or ANT_PEERS supplied
     {
-        s.push_str("\n/-- ant-bootstrap: `BootstrapCacheStore::get_sorted_addrs` (sort key `failure_rate() as u64`), `BootstrapAddr::sync` (saturating_add, reset at u32::MAX), `BootstrapAddr::update_status` (checked_add), `BootstrapAddresses::sync`, `PeersArgs::get_addrs_inner`: panic sites of each body -/\n");
+        s.push_str("\n/-- ant-bootstrap: `BootstrapCacheStore::get_sorted_addrs` (sort key `failure_rate() as u64`), `BootstrapAddr::sync` (saturating_add, reset at u32::MAX), `BootstrapAddr::update_status` (checked_add), `BootstrapAddresses::sync`, `PeersArgs::get_bootstrap_addr` / `get_addrs`: panic sites of each body -/\n");
         let cs = parse_file(&repo.join("ant-bootstrap/src/cache_store.rs"))?;
         let f = impl_fn(&cs, "BootstrapCacheStore", None, "get_sorted_addrs")?;
         if !toks(&f.block).contains("addrs.sort_by_key(|addr|addr.failure_rate()asu64);") {
@@ -246,8 +246,10 @@ pub fn generate(repo: &PathBuf, s: &mut String) -> Result<(), String> {
         let f = impl_fn(&lib, "BootstrapAddresses", None, "sync")?;
         sites_def(s, "bootstrapAddressesSyncSites", &sites(&f.block, &no_env, false, false));
         let ip = parse_file(&repo.join("ant-bootstrap/src/initial_peers.rs"))?;
-        let f = impl_fn(&ip, "PeersArgs", None, "get_addrs_inner")?;
-        sites_def(s, "getAddrsInnerSites", &sites(&f.block, &no_env, false, false));
+        let f = impl_fn(&ip, "PeersArgs", None, "get_bootstrap_addr")?;
+        sites_def(s, "getBootstrapAddrSites", &sites(&f.block, &no_env, false, false));
+        let f = impl_fn(&ip, "PeersArgs", None, "get_addrs")?;
+        sites_def(s, "getAddrsSites", &sites(&f.block, &no_env, false, false));
         let f = impl_fn(&lib, "BootstrapAddr", None, "is_reliable")?;
         sites_def(s, "isReliableSites", &sites(&f.block, &no_env, false, false));
     }
